@@ -659,7 +659,11 @@ r_expand(const Expansion &expansion, const vector_string &args,
     }
     if (!node._nested.empty()) {
       string nested_result;
-      if (node._optional && args.size() >= _num_parameters) {
+      // __VA_OPT__ contributes only if __VA_ARGS__ has at least one token.
+      bool has_va_args = _variadic_param >= 0 &&
+        ((int)args.size() > _variadic_param + 1 ||
+         ((int)args.size() == _variadic_param + 1 && !args[_variadic_param].empty()));
+      if (node._optional && has_va_args) {
         nested_result = r_expand(node._nested, args, expand_undefined, ignores);
       }
       if (node._stringify) {
